@@ -168,9 +168,10 @@ func (ent *entityNode) innerRef(name string) *schema_j5pb.Field {
 func (ent *entityNode) findStatus(end string) (string, bool) {
 	for _, status := range ent.Schema.Status {
 		if status.Name == end {
+			// the status enum uses the option name as written (see enumBuilder.addValue)
 			return fmt.Sprintf("%s_STATUS_%s",
 				strcase.ToScreamingSnake(ent.Schema.Name),
-				strcase.ToScreamingSnake(status.Name),
+				status.Name,
 			), true
 		}
 	}
